@@ -68,8 +68,7 @@ def _toep_dense(torch, c, r):
 # ------------------------------------------------------------------------------------------
 # unit: Toeplitz kernels
 
-def rtc_toeplitz(tier):
-    torch, zoo, rec, seed = _setup()
+def _body_toeplitz(torch, zoo, rec, seed, tier):
     from linear_operator.utils import toeplitz as T
 
     sizes = [1, 2, 3, 5] if tier == "quick" else [1, 2, 3, 4, 5, 8, 13]
@@ -179,7 +178,7 @@ def rtc_toeplitz(tier):
                     (gr,) = torch.autograd.grad(q, cc)
                     if ok:
                         rec.check("sym_toeplitz_derivative_quadratic_form/autograd", lab, _close(zoo, res, gr, scale=8 * m * U2.shape[-1]), "differs from d/dc sum_j u_j^T T(c) v_j")
-    return rec.obligations()
+    return None
 
 
 # ------------------------------------------------------------------------------------------
@@ -218,8 +217,7 @@ def _interp_cases(torch, zoo, tier, seed):
                             yield f"{dn}|rows={rows}|base={nb}|w={w}|b={b}|{kind}", dt, idx, val, nb
 
 
-def rtc_interp(tier):
-    torch, zoo, rec, seed = _setup()
+def _body_interp(torch, zoo, rec, seed, tier):
     from linear_operator.utils import interpolation as I
 
     for lab0, dt, idx, val, nb in _interp_cases(torch, zoo, tier, seed):
@@ -257,14 +255,13 @@ def rtc_interp(tier):
             if ok:
                 rec.check(f"left_t_interp/{rk}", lab, res.dtype == dt and _close(zoo, res, exp, scale=4 * rows), f"shape {tuple(res.shape)} vs {tuple(exp.shape)}")
         rec.check("interp/args_intact", lab0, torch.equal(idx, idx0) and torch.equal(val, val0), "index/value tensors changed", nontrivial=False)
-    return rec.obligations()
+    return None
 
 
 # ------------------------------------------------------------------------------------------
 # unit: sparse construction / conversion / indexing / repetition
 
-def rtc_sparse(tier):
-    torch, zoo, rec, seed = _setup()
+def _body_sparse(torch, zoo, rec, seed, tier):
     from linear_operator.utils import sparse as S
 
     # make_sparse_from_indices_and_values: result (*b, num_rows, n_targets), M[idx[c,k], c] += val[c,k]
@@ -370,14 +367,13 @@ def rtc_sparse(tier):
                     ok, res = rec.guard(f"sparse_repeat/{fam_}", lab, call)
                     if ok:
                         rec.check(f"sparse_repeat/{fam_}", lab, tuple(res.shape) == tuple(exp.shape) and _teq(torch, _sdense(res), exp), f"shape {tuple(res.shape)} vs {tuple(exp.shape)}; values differ from dense.repeat")
-    return rec.obligations()
+    return None
 
 
 # ------------------------------------------------------------------------------------------
 # unit: (batched, broadcasting) sparse @ dense and its gradient
 
-def rtc_dsmm(tier):
-    torch, zoo, rec, seed = _setup()
+def _body_dsmm(torch, zoo, rec, seed, tier):
     import linear_operator
     from linear_operator.utils import sparse as S
 
@@ -422,14 +418,13 @@ def rtc_dsmm(tier):
                     ok, gr = rec.guard("dsmm/gradient", lab, run)
                     if ok:
                         rec.check("dsmm/gradient", lab, gr is not None and _close(zoo, gr, Dr.grad, scale=8 * m * max(1, exp.numel() // max(1, m * p))), "grad != sparse^T @ grad_output")
-    return rec.obligations()
+    return None
 
 
 # ------------------------------------------------------------------------------------------
 # unit: permutations
 
-def rtc_permutation(tier):
-    torch, zoo, rec, seed = _setup()
+def _body_permutation(torch, zoo, rec, seed, tier):
     from linear_operator.operators import DenseLinearOperator, DiagLinearOperator, ToeplitzLinearOperator
     from linear_operator.utils import permutation as P
 
@@ -504,14 +499,13 @@ def rtc_permutation(tier):
                     K = zoo.rn(g, *b, n, n, dtype=torch.float64)
                     back = P.apply_permutation(P.apply_permutation(K, p, p), inv, inv)
                     rec.check("inverse_permutation/roundtrip", lab, torch.equal(back, K), "Pi^-1 (Pi K Pi^T) Pi^-T != K")
-    return rec.obligations()
+    return None
 
 
 # ------------------------------------------------------------------------------------------
 # unit: stable_qr / stable_pinverse / broadcasting helpers
 
-def rtc_qr_pinv(tier):
-    torch, zoo, rec, seed = _setup()
+def _body_qr_pinv(torch, zoo, rec, seed, tier):
     from linear_operator.utils import broadcasting as B
     from linear_operator.utils.pinverse import stable_pinverse
     from linear_operator.utils.qr import stable_qr
@@ -629,8 +623,54 @@ def rtc_qr_pinv(tier):
                 ok, res = rec.guard("_pad_with_singletons/shape", f"{sh}|{nb}|{na}", lambda: B._pad_with_singletons(x, nb, na))
                 if ok:
                     rec.check("_pad_with_singletons/shape", f"{sh}|{nb}|{na}", tuple(res.shape) == (*[1] * nb, *sh, *[1] * na) and torch.equal(res.reshape(sh), x), f"{tuple(res.shape)}")
+    return None
+
+
+
+
+class _RoundRec:
+    """recorder view that tags the labels of the extra (re-seeded) rounds of the thorough tier"""
+
+    def __init__(self, rec, rnd):
+        self.rec, self.sfx = rec, (f"|round={rnd}" if rnd else "")
+
+    def check(self, group, label, *a, **k):
+        return self.rec.check(group, label + self.sfx, *a, **k)
+
+    def guard(self, group, label, *a, **k):
+        return self.rec.guard(group, label + self.sfx, *a, **k)
+
+
+def _rounds(body, tier):
+    """quick: one pass with the base seed; thorough: the thorough-size family re-drawn with 4 seeds"""
+    torch, zoo, rec, seed = _setup()
+    for rnd in range(1 if tier == "quick" else 4):
+        body(torch, zoo, _RoundRec(rec, rnd), seed + 1009 * rnd, tier)
     return rec.obligations()
 
+
+def rtc_toeplitz(tier):
+    return _rounds(_body_toeplitz, tier)
+
+
+def rtc_interp(tier):
+    return _rounds(_body_interp, tier)
+
+
+def rtc_sparse(tier):
+    return _rounds(_body_sparse, tier)
+
+
+def rtc_dsmm(tier):
+    return _rounds(_body_dsmm, tier)
+
+
+def rtc_permutation(tier):
+    return _rounds(_body_permutation, tier)
+
+
+def rtc_qr_pinv(tier):
+    return _rounds(_body_qr_pinv, tier)
 
 # ------------------------------------------------------------------------------------------
 
